@@ -59,7 +59,7 @@ namespace bluetoe
         {
             static bool acceptable( std::uintptr_t start, std::uintptr_t end )
             {
-                return ( start >= Start && end <= End )
+                return ( start >= Start && start <= end && end <= End )
                     || white_list< Regions... >::acceptable( start, end );
             }
 
@@ -351,7 +351,8 @@ namespace bluetoe
                             used_buffer_  = 0;
                             in_flash_mode = true;
 
-                            if ( !MemRegions::acceptable( start_address, start_address ) )
+                            // the first byte to be flashed has to be within a flashable region (End is exclusive)
+                            if ( !MemRegions::acceptable( start_address, start_address + 1 ) )
                                 return request_error( bluetoe::error_codes::invalid_offset );
 
                             for ( auto& buffer : buffers_ )
